@@ -216,8 +216,12 @@ func allocBound(inputLen int) uint64 { return 65536 + 64*uint64(inputLen) }
 const preallocLimit = 1 << 20
 
 // streamAllocBound is the Go-side bound for one stream read helper call on dataLen bytes of input whose length
-// argument / length prefix claims `claimed` bytes: the up-front buffer min(claimed, 1 MiB) plus the input-proportional
-// part. An allocation that follows an unbacked length field beyond 1 MiB exceeds it.
+// argument / length prefix claims `claimed` bytes. Two separate parts: what the DATA justifies - 4.5 bytes per byte of
+// input (a buffer that doubles when it is full: all buffers together stay below 4 x the bytes received, plus rounding)
+// and 64 bytes for each of the first 4096 (small reads, per-element bookkeeping) - and what the CLAIM alone justifies:
+// the up-front buffer min(claimed, 1 MiB), nothing more. 1 MiB of data behind a prefix of 2^28 may cost 64 KiB +
+// 256 KiB + 4.5 MiB + 1 MiB, not 256 MiB.
 func streamAllocBound(dataLen int, claimed uint64) uint64 {
-	return allocBound(dataLen) + min(claimed, preallocLimit)
+	d := uint64(dataLen)
+	return 65536 + 64*min(d, 4096) + 4*d + d/2 + min(claimed, preallocLimit)
 }
